@@ -8,6 +8,8 @@ Edges == [ToDict |-> <<"OBJ", "DICT">>, FromDict |-> <<"DICT", "OBJ">>, SchemaLo
           FromObject |-> <<"OBJ", "MODEL">>, ToObject |-> <<"MODEL", "OBJ">>, SchemaDump |-> <<"MODEL", "PLAIN">>,
           PlainLoad |-> <<"PLAIN", "MODEL">>, JsonDumps |-> <<"PLAIN", "JSON">>, JsonLoads |-> <<"JSON", "PLAIN">>,
           Pickle |-> <<"OBJ", "PICKLE">>, Unpickle |-> <<"PICKLE", "OBJ">>, Rebuild |-> <<"OBJ", "OBJ">>,
-          Perturb |-> <<"OBJ", "OBJ">>]
+          Perturb |-> <<"OBJ", "OBJ">>,
+          \* a GFF3 / qualifier export of the object (with parent qualifiers that share its keys): a read
+          Export |-> <<"OBJ", "OBJ">>]
 Actions == DOMAIN Edges
 =============================================================================
